@@ -16,11 +16,14 @@ def run(rep):
     rep.guard(u3, rep, w)
     import c10
     rep.guard(c10.v5, rep, w, 'U4')      # index arithmetic on program-chosen integers cannot overflow (-inf / isize::MIN boundary)
+    rep.guard(c10.v6, rep, w, 'U7')      # String.find & co: a difference of two lengths is taken only after comparing them
     rep.guard(u5, rep, w)
     rep.guard(u6, rep, w)
     import c19
     rep.guard(c19.d1, rep, w)     # number -> string conversion is the model's (shortest round-trip) text
     rep.guard(c19.d2, rep, w)     # string -> number conversion is correctly rounded (str::parse::<f64> on the whole string)
+    import c03
+    rep.guard(c03.t6, rep, w)     # string literals: escapes are cut out of the source only at character boundaries
     import c01, c01_flow
     rep.guard(c01_flow.r5b, rep, w, c01.may_gc(w))     # slicing copies operands off the stack: they stay rooted until the result exists
 
